@@ -418,8 +418,16 @@ def _check_kinds(ctx: Ctx) -> None:
     al = M.func(IA, 'IASolverBaseClass._calc_Bkl_cov_matrix_all_l')
     st = [n for n in ast.walk(al.node) if isinstance(n, ast.Assign) and isinstance(n.targets[0], ast.Subscript) and norm(n.targets[0].value) == 'Bkl_all_l']
     ctx.instance('C11.c', al.qualname + ':noise-once')
-    s = norm(st[0].value).replace(' ', '') if st else ''
-    ok = len(st) == 1 and s.count('noise_power') == 1 and 'noise_power*np.eye(' in s and s.startswith('first_part-second_part+')
+    from ..astutil import expander
+    if len(st) != 1:
+        ctx.error('C11.c: %s no longer stores B_kl once (cannot tell)' % al.qualname)
+    # named sub-terms (e.g. a hoisted noise covariance) are looked through; first_part/second_part stay names
+    defs_keep = {'first_part', 'second_part'}
+    from ..astutil import single_locals, expand
+    dl = {k_: v_ for k_, v_ in single_locals(al).items() if k_ not in defs_keep}
+    s = norm(expand(st[0].value, dl)).replace(' ', '')
+    ok = s.count('noise_power') == 1 and ('noise_power*np.eye(' in s or 'np.eye(' in s and '*noise_power' in s) \
+        and s.startswith('first_part-second_part+')
     fpi = M.func(IA, 'IASolverBaseClass._calc_Bkl_cov_matrix_first_part')
     ok = ok and 'noise' not in norm(fpi.node)
     ctx.obligation('C11.c', al.qualname + ':noise-once', ok, {'store': s[:100]})
